@@ -7,6 +7,7 @@
 -/
 import Petl.Lazy
 import Petl.Gen.CtorReads
+import Petl.Gen.Materialise
 
 namespace Petl.C02
 open Petl
@@ -202,6 +203,30 @@ def allowedCtorReads : List (String × String) := [
 
 theorem constructors_read_only_where_allowed :
     ∀ r ∈ Gen.ctorReads, allowedCtorReads.contains (r.site, r.kind) = true := by
+  decide +kernel
+
+/-! ### iteration: wholesale consumption of a source, regenerated from the source on every run -/
+
+/-- The generator functions that consume a source wholesale (or a bounded sample of it) while iterating, each a
+    documented necessity: `tail` needs the end of the table; the hash joins and hash set operations read their build
+    side (right table / second table) completely before streaming the other; `crossjoin` materialises its inputs
+    (itertools.product); `aggregate(key=None, len)` counts the rows; the external sort reads one buffer at a time;
+    `recast` and `unpackdict` sample `samplesize` rows to discover the output fields.  Every other generator function
+    of petl/transform, util/{base,materialise,timing,vis,lookups} and the text-format readers contains no such site. -/
+def allowedMaterialise : List (String × String × String) := [
+  ("transform.basics.itertail", "full", "loop-without-yield"),
+  ("transform.hashjoins.iterhashantijoin", "full", "loop-without-yield"),
+  ("transform.hashjoins.iterhashlookupjoin", "full", "lookupone"),
+  ("transform.joins.itercrossjoin", "full", "comprehension"),
+  ("transform.reductions.itersimpleaggregate", "full", "nrows"),
+  ("transform.setops.iterhashcomplement", "full", "Counter(genexp)"),
+  ("transform.setops.iterhashintersection", "full", "Counter(genexp)"),
+  ("transform.reshape.iterrecast", "bounded", "loop-without-yield(islice)"),
+  ("transform.sorts.SortView._iternocache", "bounded", "list(islice)"),
+  ("transform.unpacks.iterunpackdict", "bounded", "list(islice)")]
+
+theorem iterators_materialise_only_where_allowed :
+    ∀ m ∈ Gen.materialisations, allowedMaterialise.contains (m.fn, m.kind, m.callee) = true := by
   decide +kernel
 
 /-! non-vacuity -/
